@@ -66,6 +66,23 @@ func C20(e *Env) {
 		looksPS3 := ps3 || i%4 == 0
 		dir, _ := genISOTree(r, root, name, tree.GenOpt{MaxDepth: r.Intn(4), MaxEntries: 1 + r.Intn(10), MaxSize: 70000, NameLen: 14, EmptyFiles: true}, looksPS3)
 		outFile := filepath.Join(out, name+".iso")
+		// the output file's name is the operator's choice: one run in four names it like something inside
+		// the tree (written elsewhere, so it is not a member): the image is that of the whole tree all the same
+		outNamedLikeMember := ""
+		if i%4 == 2 {
+			var members []string
+			filepath.WalkDir(dir, func(p string, d os.DirEntry, err error) error {
+				if err == nil && p != dir {
+					members = append(members, filepath.Base(p))
+				}
+				return nil
+			})
+			if len(members) > 0 {
+				must(os.MkdirAll(filepath.Join(out, "named"), 0o755))
+				outNamedLikeMember = members[r.Intn(len(members))]
+				outFile = filepath.Join(out, "named", outNamedLikeMember)
+			}
+		}
 		args := []string{"make-iso"}
 		if ps3 {
 			args = append(args, "--ps3-mode")
@@ -88,7 +105,10 @@ func C20(e *Env) {
 		res := runCLI(e.Bin, out, append(args, spelled, outFile)...)
 		run.Eval(1)
 		run.Sig("make-iso ps3=%v dir spelled %s", ps3, spelling)
-		wit := map[string]any{"tool": "make-iso", "ps3": ps3, "tree": name, "directory_argument": spelled, "exit": res.code, "stderr": firstLines(string(res.stderr), 6)}
+		if outNamedLikeMember != "" {
+			run.Sig("make-iso ps3=%v output named like a member", ps3)
+		}
+		wit := map[string]any{"tool": "make-iso", "ps3": ps3, "tree": name, "directory_argument": spelled, "output_file": outFile, "exit": res.code, "stderr": firstLines(string(res.stderr), 6)}
 		if res.code != 0 {
 			run.Violate("tool-failed", "make-iso", fmt.Sprintf("make-iso on a tree of portable names exited %d: %s", res.code, firstLines(string(res.stderr)+string(res.stdout), 4)), wit)
 			continue
@@ -138,6 +158,20 @@ func C20(e *Env) {
 		}
 		c.Tail = tail
 		plain := tree.Content(c.Seed, int64(sectors*2048+tail))
+		// what a real dump looks like: a whole number of MiB whose last blocks are nothing but zeros (in
+		// plaintext; stored encrypted when the region table says so)
+		zeroTail := i%8 == 5 || i%8 == 6
+		if zeroTail {
+			sectors = 512 * (2 + r.Intn(2))
+			c.Sectors, c.Tail, tail = sectors, 0, 0
+			plain = tree.Content(c.Seed, int64(sectors*2048))
+			clear(plain[len(plain)-(1<<20)-r.Intn(300000):])
+			if i%8 == 5 {
+				c.Regions, c.Shape = []refcrypt.Region{{Start: 0, End: 3}, {Start: uint32(sectors - 40), End: uint32(sectors - 1)}}, "zero-tail-mostly-encrypted"
+			} else {
+				c.Regions, c.Shape = []refcrypt.Region{{Start: 0, End: 3}, {Start: 100, End: uint32(sectors + 5)}}, "zero-tail-plain"
+			}
+		}
 		if format == "3k3y" {
 			// sector 1 (holding the watermark area start) must be plain: region 0 covers sectors 0..1
 			c.Regions = []refcrypt.Region{{Start: 0, End: 1}, {Start: uint32(4 + r.Intn(4)), End: uint32(sectors/2 + 2)}, {Start: uint32(sectors/2 + 5 + r.Intn(3)), End: uint32(sectors + 10)}}
@@ -155,11 +189,14 @@ func C20(e *Env) {
 		must(os.WriteFile(in, stored, 0o644))
 		must(os.WriteFile(keyf, []byte(hex.EncodeToString(c.Key)), 0o644))
 		inBefore := model.Snapshot(in)
-		for _, target := range []string{"file", "stdout"} {
+		for _, target := range []string{"file", "stdout", "stdout-to-file"} {
 			outFile := filepath.Join(out, fmt.Sprintf("dec%03d.iso", i))
 			dst := outFile
-			if target == "stdout" {
+			if target != "file" {
 				dst = "-"
+			}
+			if target == "stdout-to-file" && !zeroTail && i%5 != 0 {
+				continue
 			}
 			var args []string
 			if format == "redump" {
@@ -167,7 +204,24 @@ func C20(e *Env) {
 			} else {
 				args = []string{"decrypt", "3k3y", in, dst}
 			}
-			res := runCLI(e.Bin, out, args...)
+			var res cliResult
+			if target == "stdout-to-file" {
+				// "decrypt ... - > image.iso": standard output is a regular file, not a pipe
+				of, err := os.Create(outFile + ".redirected")
+				must(err)
+				cmd := exec.Command(e.Bin, args...)
+				cmd.Dir = out
+				cmd.Env = append(os.Environ(), "TZ=UTC", "HOME=/nonexistent")
+				var se bytes.Buffer
+				cmd.Stdout, cmd.Stderr = of, &se
+				cmd.Run()
+				of.Close()
+				res = cliResult{code: cmd.ProcessState.ExitCode(), stderr: se.Bytes()}
+				res.stdout, _ = os.ReadFile(outFile + ".redirected")
+				os.Remove(outFile + ".redirected")
+			} else {
+				res = runCLI(e.Bin, out, args...)
+			}
 			run.Eval(1)
 			run.Sig("decrypt %s -> %s (%s)", format, target, c.Shape)
 			wit := map[string]any{"tool": "decrypt " + format, "output": target, "regions": c.Regions, "sectors": sectors, "exit": res.code, "stderr": firstLines(string(res.stderr), 5)}
@@ -176,7 +230,7 @@ func C20(e *Env) {
 				continue
 			}
 			var got []byte
-			if target == "stdout" {
+			if target != "file" {
 				got = res.stdout
 			} else {
 				got, _ = os.ReadFile(outFile)
@@ -187,7 +241,7 @@ func C20(e *Env) {
 			}
 			if d := diffWithDC(got, want, dc, 0); d != "" {
 				extra := ""
-				if target == "stdout" && len(got) > len(want) && bytes.HasSuffix(got, want[len(want)-4096:]) {
+				if target != "file" && len(got) > len(want) && bytes.HasSuffix(got, want[len(want)-4096:]) {
 					extra = fmt.Sprintf(" (standard output starts with %q)", string(got[:min(60, len(got)-len(want))]))
 				}
 				run.Violate("decrypt-output-differs", format+"-to-"+target, fmt.Sprintf("decrypt %s to %s: output differs from the reference plaintext with cleared region table: %s%s", format, target, d, extra), wit)
